@@ -66,7 +66,7 @@ class _extract:
         return not self._in_comment
 
     def ensures_line_kept(self, string, old):
-        return self.tag_pair_buffer == old.self.tag_pair_buffer + [string]
+        return seq_appended(self.tag_pair_buffer, old.self.tag_pair_buffer, string)
 
 
 # ---- parse_stream: one game per maximal run of non-blank lines with content ----------------------
